@@ -33,6 +33,7 @@ pub struct LocalMutRingBuf<S: Storage> {
     prod_alive: UnsafeCell<bool>,
     work_alive: UnsafeCell<bool>,
     cons_alive: UnsafeCell<bool>,
+    alive_iters: UnsafeCell<usize>,
 }
 
 impl<S: Storage<Item = T>, T> MutRB for LocalMutRingBuf<S> {
@@ -55,7 +56,8 @@ impl<S: Storage<Item = T>, T> LocalMutRingBuf<S> {
 
             prod_alive: false.into(),
             work_alive: false.into(),
-            cons_alive: false.into()
+            cons_alive: false.into(),
+            alive_iters: 0.into()
         }
     }
 }
@@ -104,15 +106,31 @@ impl<S: Storage> IterManager for LocalMutRingBuf<S> {
     }
 
     fn set_prod_alive(&self, alive: bool) {
-        unsafe { *self.prod_alive.get() = alive; }
+        unsafe {
+            if alive { *self.alive_iters.get() += 1; }
+            *self.prod_alive.get() = alive;
+        }
     }
 
     fn set_work_alive(&self, alive: bool) {
-        unsafe { *self.work_alive.get() = alive; }
+        unsafe {
+            if alive { *self.alive_iters.get() += 1; }
+            *self.work_alive.get() = alive;
+        }
     }
 
     fn set_cons_alive(&self, alive: bool) {
-        unsafe { *self.cons_alive.get() = alive; }
+        unsafe {
+            if alive { *self.alive_iters.get() += 1; }
+            *self.cons_alive.get() = alive;
+        }
+    }
+
+    fn release_iter(&self) -> bool {
+        unsafe {
+            *self.alive_iters.get() -= 1;
+            *self.alive_iters.get() == 0
+        }
     }
 }
 
